@@ -20,7 +20,7 @@ DYNAMIC_COST = ("base64_decode", "json_ref")
 
 def default_imm(kind: str) -> List[str]:
     return {
-        "u8": ["1"], "u64": ["7"], "label": ["L0"], "labels": ["L0", "L0"], "ints": ["1", "2"], "bytes1": ["0x0102"],
+        "optu8": ["0"], "u8": ["1"], "u64": ["7"], "label": ["L0"], "labels": ["L0", "L0"], "ints": ["1", "2"], "bytes1": ["0x0102"],
         "bytess": ["0x01", "0x02"], "addr": [LIT1], "ecdsa": ["Secp256k1"], "b64": ["URLEncoding"], "json": ["JSONString"],
         "vrf": ["VrfAlgorand"], "blockf": ["BlkSeed"], "i8": ["-1"], "txnf": ["Fee"], "txnaf": ["ApplicationArgs"], "gf": ["GroupSize"],
         "ahf": ["AssetBalance"], "apf": ["AssetTotal"], "appf": ["AppCreator"], "acf": ["AcctBalance"],
@@ -66,6 +66,10 @@ def items(tier: str) -> List[Any]:
     for a, b in itertools.permutations(reps, 2):
         for v in (None, 2, 5, 8) if tier == "quick" else versions:
             out.append(("pair", v, [a, b]))
+    # mode-specific / versioned instructions that sit in unreachable code still belong to the program
+    for a in reps:
+        for v in (None, 2, 8):
+            out.append(("dead", v, [a]))
     # cost blocks
     costly = [f for f in fs if spec.cost(spec.BY_NAME[f[0]], f[3], 8) != 1 or f[0] in ("int", "pop", "b", "bnz", "retsub", "err")]
     costly = [f for f in costly if f[2] is None or f[0] in ("ecdsa_verify",)]
@@ -95,6 +99,8 @@ def worker(item: Any, res: runner.Result) -> None:  # pylint: disable=too-many-l
     lines: List[str] = []
     if version is not None:
         lines.append(f"#pragma version {version}")
+    if kind == "dead":
+        lines += ["int 1", "err"]  # everything after `err` is unreachable
     first = len(lines) + 1
     for _, line, _, _ in inss:
         lines.append(line)
